@@ -291,7 +291,7 @@ def gen_net(rng, idx, profile):
     x = b.input([1, h, w, c])
     b.net.desc.append(f"profile={profile} dtype={dtype} in={[1, h, w, c]}")
     menu = {
-        "conv": ["conv", "conv", "conv1x1", "dwconv", "maxpool", "avgpool_valid", "relu", "fc_end", "tconv", "fc_batch"],
+        "conv": ["conv", "conv", "conv1x1", "dwconv", "maxpool", "avgpool_valid", "relu", "fc_end", "tconv", "fc_batch", "avgpool_wide"],
         "elementwise": ["add_self", "add_skip", "mul_const", "sub_const", "add_const", "minmax", "relu", "lrelu", "quantize",
                         "conv1x1", "mul_skip", "hswish", "add_const", "sqdiff", "abs", "prelu"],
         "memory": ["concat", "split_concat", "slice", "pad_conv", "reshape_back", "conv1x1", "relu", "maxpool", "pad", "squeeze_expand",
@@ -333,6 +333,10 @@ def gen_net(rng, idx, profile):
             k = rng.choice([(3, 3), (3, 3), (5, 5), (2, 2), (1, 1), (1, 3)])
             s = rng.choice([(1, 1), (1, 1), (2, 2), (3, 3)])
             new = b.dwconv(cur, k, s, (1, 1), pick_padding(rng, k, s), act=rng.choice([0, 1, 3]))
+        elif kind == "avgpool_wide" and ww >= 8 and xt.dtype != "int16":
+            # stride width above 3: converted to a convolution whose width is folded into the channels
+            k = rng.choice([(2, 2), (1, 2), (2, 4), (1, 4)])
+            new = b.pool(cur, "AVERAGE_POOL_2D", k, (rng.choice([1, 2]), rng.choice([4, 4, 5, 6])), "VALID")
         elif kind in ("maxpool", "avgpool_valid", "avgpool_same"):
             k = rng.choice([(2, 2), (3, 3), (2, 2), (1, 1), (4, 4), (2, 3)])
             s = rng.choice([(1, 1), (2, 2), (2, 2), (3, 3)])
@@ -915,9 +919,18 @@ def transpose_then_activation(o):
                for kind, ins, outs, faf, pad, stride in g)
 
 
+def wide_stride_avgpool(o):
+    """AVERAGE_POOL_2D with a stride above 3 on more than one channel"""
+    ti = o.get("src_tinfo") or []
+    return any(kind == "AVERAGE_POOL_2D" and stride > 3 and ti[ins[0]][0][-1] > 1
+               for kind, ins, outs, faf, pad, stride in o.get("src_graph") or [])
+
+
 def classify_failure(o, ans):
     """stable key of an open known finding (see known_findings.txt), or None. Only the structure of the source network
     is consulted; the verdict itself is Lean's."""
+    if (ans.endswith("verdict=fail") or ans.startswith("err:out:")) and wide_stride_avgpool(o):
+        return "wide-stride-avgpool-converted-with-one-input-channel-kernel"
     if ans.endswith("verdict=fail") and mean_over_unit_axes(o):
         return "mean-over-unit-axes-drops-requantisation"
     if ans.endswith("verdict=fail") and transpose_then_activation(o):
